@@ -107,7 +107,12 @@ def gen_hist_gt(rng, tier):
     for t in range(n):
         cls = CLASSES[t % 4]
         ops = [{"k": "read", "region": None, "samples": None, "variants": None}]
-        if t % 8 >= 6:
+        if t % 16 == 2 or t % 16 == 9:
+            # a fixed share (PGEN and VCF objects): a load that matches nothing, look-ups built on the empty object, then the full
+            # load – by-ID operations afterwards act on what is loaded now
+            ops = [{"k": "read", "region": None, "samples": None, "variants": ["vz"]}, {"k": "index", "r": True, "c": True}, {"k": "read", "region": None, "samples": None, "variants": None},
+                   {"k": "subset", "rs": rng.sample(SAMPLES, 2), "cs": rng.sample([v[0] for v in VARS], 2), "inplace": False}]
+        elif t % 8 >= 6:
             # a fixed share: the object's first load is a restricted one (it has not seen everything the file holds – not every
             # ancestry label, for one), the full load comes later
             ops = [{"k": "read", "region": rng.choice(["1:5-25", "1"]), "samples": None, "variants": None}, {"k": "read", "region": None, "samples": None, "variants": None}]
@@ -168,8 +173,14 @@ def impl_hist_gt(case):
     sim = sim_ids = sim_rows = None
     Effect = namedtuple("Effect", "id beta")
     stopped = False
+    empty = False
     for o in case["ops"]:
         e = {}
+        if empty and o["k"] not in ("read", "index"):
+            # the object holds nothing (its last load matched nothing): only look-up building and further loads go on from here
+            mops.append({"k": "index", "r": False, "c": False})
+            trace.append({"state": trace[-1]["state"], "skipped": True})
+            continue
         if o["k"] == "merge_variants":
             # by-ID outcome only (no model step): refused, or every cell of the merged object is the cell bearing that (sample, variant)
             d0 = np.asarray(g.data)
@@ -213,8 +224,9 @@ def impl_hist_gt(case):
                 e["state"] = enc_gt(g)
                 e["state"]["data"] = [[] for _ in e["state"]["rows"]]
                 trace.append(e)
-                stopped = True
-                break
+                stopped = empty = True
+                continue
+            stopped = empty = False
             if sim is None:
                 # phenotype simulation as a by-ID query: one simulator for the whole history, asked once now and once at the end
                 from haptools.sim_phenotype import PhenoSimulator
@@ -323,6 +335,8 @@ def oracle_hist(case, obs):
     if _copies_clause(obs):
         return _copies_clause(obs)
     for k, (o, e) in enumerate(zip(case["ops"], obs["trace"])):
+        if e.get("skipped"):
+            continue
         if "merge" in e:
             m = e["merge"]
             if m["refused"] and m["order"] == "same":
